@@ -29,6 +29,7 @@ type vfRecOp struct {
 	D    int        `json:"d"`
 	Ms   int        `json:"ms"`
 	Lim  int        `json:"lim"`
+	Room int        `json:"room"`
 	Ecn  int        `json:"ecn"`
 	V    bool       `json:"v"`
 }
@@ -72,16 +73,25 @@ func vfRecRanges(rs [][2]int64) []any {
 // datagram of at most lim bytes. It returns the frame bytes (nil if the writer refused) and the
 // Largest Acknowledged value the writer recorded in its sentPacket (what conn_loss.go hands to
 // ackState.handleAck when that packet is acknowledged).
-func vfRecAckFrame(seen rangeset[packetNumber], delay time.Duration, ecn ecnCounts, lim int) ([]byte, int64) {
+//
+// room > 0: the packet already holds other frames (PINGs) so that exactly room bytes of
+// payload space are left for the ACK frame.
+func vfRecAckFrame(seen rangeset[packetNumber], delay time.Duration, ecn ecnCounts, lim, room int) ([]byte, int64) {
 	var w packetWriter
 	w.reset(lim)
 	w.start1RTTPacket(0, 0, nil)
+	fill := 0
+	if room > 0 {
+		for w.avail() > room && w.appendPingFrame() {
+			fill++
+		}
+	}
 	if !w.appendAckFrame(seen, unscaledAckDelayFromDuration(delay, ackDelayExponent), ecn) {
 		return nil, -1
 	}
 	w.sent.next()
 	largest := int64(w.sent.nextInt())
-	return append([]byte(nil), w.payload()...), largest
+	return append([]byte(nil), w.payload()[fill:]...), largest
 }
 
 // ------------------------------------------------------------------------------- C25
@@ -179,7 +189,7 @@ func (r *vfRecAcksRun) apply(op vfRecOp) {
 			if len(seen) == 0 {
 				return
 			}
-			frame, l := vfRecAckFrame(seen, delay, r.acks.ecn, lim)
+			frame, l := vfRecAckFrame(seen, delay, r.acks.ecn, lim, op.Room)
 			if frame == nil {
 				return
 			}
@@ -254,7 +264,7 @@ func vfRecPeerAck(c *lossState, now time.Time, space numberSpace, rs [][2]int64,
 	for i := len(rs) - 1; i >= 0; i-- {
 		set = append(set, i64range[packetNumber]{packetNumber(rs[i][0]), packetNumber(rs[i][1])})
 	}
-	frame, _ := vfRecAckFrame(set, delay, ecnCounts{}, 1500)
+	frame, _ := vfRecAckFrame(set, delay, ecnCounts{}, 1500, 0)
 	if frame == nil {
 		panic("vf: could not encode peer ACK frame")
 	}
@@ -477,6 +487,54 @@ func vfRecRandomAck(rnd *rand.Rand, next int64, skipped []int64, bad bool) [][2]
 	return rs
 }
 
+// vfRecDirectedAcks is run on every invocation, independently of the seed: fixed ack states
+// made of single-packet ranges whose gaps need varints of different sizes (encoded gaps of
+// 1, 63, 64, 16383, 16384), small and large packet numbers, with and without ECN counts; then
+// one ACK frame for every number of payload bytes left in the packet, from "nothing fits" up
+// to "everything fits". Before each frame the next packet number above the newest range
+// arrives (ack-eliciting), so that an ACK is owed again; the older ranges stay as they are.
+// The real ackState keeps at most its range limit (8) of ranges.
+func vfRecDirectedAcks(env *vfEnv, maxr int) {
+	states := []struct {
+		base int64
+		gaps []int64 // encoded gaps, oldest first
+		ecn  int
+	}{
+		{0, []int64{1, 63, 1, 64, 16384}, 0},
+		{5, []int64{1, 63, 16384, 1, 16383, 1, 64}, 0},
+		{100, []int64{16384, 16383, 64, 63, 1}, 0},
+		{0, []int64{1, 63, 64, 16383, 16384}, 1},
+		{1 << 30, []int64{64, 16383, 1, 16384, 1, 64, 63}, 3},
+		{1<<30 - 40000, []int64{1, 1, 16384, 63, 64, 1, 16383}, 0},
+		{7, []int64{63, 1, 64, 1}, 2},
+		{0, []int64{1, 16384, 1, 64, 1, 63, 1, 16383, 1, 64, 1}, 0}, // 12 arrivals, oldest ranges pruned
+	}
+	for i, st := range states {
+		tn := 3000000 + i
+		if !env.Only(tn) || env.Hung {
+			continue
+		}
+		vfRecGuard(env, tn, func() {
+			r := vfRecNewAcksRun(env, tn, numberSpace(i%3), connSide(i%2), maxr, "directed")
+			pn := st.base
+			deliver := func(pn int64) {
+				r.apply(vfRecOp{E: "arrive", Pn: pn, Ms: 1})
+				r.apply(vfRecOp{E: "receive", El: true, Ecn: st.ecn})
+			}
+			deliver(pn)
+			for _, g := range st.gaps {
+				pn += g + 2
+				deliver(pn)
+			}
+			for room := 1; room <= 72 && !r.dead; room++ {
+				pn++
+				deliver(pn)
+				r.apply(vfRecOp{E: "ack", Ms: 1 + room%40, Room: room})
+			}
+		})
+	}
+}
+
 func TestVerifQuicAcks(t *testing.T) {
 	env := vfLoad(t)
 	if env == nil {
@@ -504,6 +562,7 @@ func TestVerifQuicAcks(t *testing.T) {
 			})
 		}
 	}
+	vfRecDirectedAcks(env, maxr)
 	n := env.Int("traces", 0)
 	nops := env.Int("ops", 80)
 	for i := 0; i < n && !env.Hung; i++ {
